@@ -5,8 +5,9 @@ From AidlV Require Import Model.LrDriver Proofs.Totality Proofs.Typing Proofs.Ai
 Section Inv.
   Variable cx : ctx.
   Hypothesis WF : length (cx_lc cx) = S (length (cx_src cx)).
+  Variable loud : bool.
   Notation valid := (valid cx).
-  Notation typed_triple := (typed_triple cx).
+  Notation typed_triple := (typed_triple cx loud).
 
   Inductive stack_ok : list N -> list triple -> Prop :=
   | SO_init : stack_ok [0] []
@@ -139,3 +140,8 @@ Section Inv.
     rewrite rev_length, HL in T. apply Forall2_rev in T. rewrite <- map_rev, rev_involutive in T. exact T.
   Qed.
 End Inv.
+
+(* raising the level keeps the invariant *)
+Lemma stack_ok_lift cx l l' states syms : stack_ok cx l states syms -> stack_ok cx (l || l') states syms.
+Proof. induction 1; econstructor; eauto. apply typed_triple_lift. assumption. Qed.
+
